@@ -10,6 +10,7 @@
 //   oracle <conn> <cost>               oracle optimum (length + penalty * bends), double, unverified
 // The Lean driver rebuilds the spec visibility graph itself and verifies potential and witness.
 #include "avoid_scene.h"
+#include "c04_own.h"
 #include <queue>
 #include <limits>
 using namespace Avoid;
@@ -48,7 +49,9 @@ struct ConnSpec { unsigned id; double sx, sy, dx, dy; };
 static LPt toL(double x, double y) { return LPt{(i64) llround(x * 64), (i64) llround(y * 64)}; }
 
 // oracle (untrusted): exact visibility, Dijkstra in doubles, on the given (current) shapes
-static void emitOracle(const std::vector<vs::DPoly> &shapesNow, const std::vector<ConnSpec> &cs, double penalty) {
+struct OracleRes { double best; std::vector<size_t> path; bool throughCorner; };
+static std::vector<OracleRes> emitOracle(const std::vector<vs::DPoly> &shapesNow, const std::vector<ConnSpec> &cs, double penalty, bool emit = true) {
+    std::vector<OracleRes> results;
     std::vector<std::vector<LPt> > polys;
     std::vector<LPt> V; std::vector<Point> VD;
     for (auto &p : shapesNow) { std::vector<LPt> q; for (auto &v : p) { q.push_back(toL(v.x, v.y)); V.push_back(q.back()); VD.push_back(v); } polys.push_back(q); }
@@ -77,9 +80,11 @@ static void emitOracle(const std::vector<vs::DPoly> &shapesNow, const std::vecto
                 for (size_t w = 0; w < N; ++w) if (w != u && vis[u][w]) { double nd = dist[u] + len(u, w); if (nd < dist[w]) { dist[w] = nd; prev[w] = (long) u; } }
             }
             best = dist[C + 1];
-            printf("cert %u %zu", c.id, N);
-            for (size_t i = 0; i < N; ++i) printf(" %s", vh::hx(dist[i] < INF ? dist[i] * (1.0 - 1e-10) : 0.0).c_str());
-            printf("\n");
+            if (emit) {
+                printf("cert %u %zu", c.id, N);
+                for (size_t i = 0; i < N; ++i) printf(" %s", vh::hx(dist[i] < INF ? dist[i] * (1.0 - 1e-10) : 0.0).c_str());
+                printf("\n");
+            }
             if (best < INF) for (long v = (long) C + 1; v >= 0; v = prev[v]) path.push_back((size_t) v);
             std::reverse(path.begin(), path.end());
         } else {
@@ -109,11 +114,28 @@ static void emitOracle(const std::vector<vs::DPoly> &shapesNow, const std::vecto
             for (long st = goal; st >= 0; st = prev[st]) path.push_back((size_t) st / (N + 1));
             std::reverse(path.begin(), path.end());
         }
-        printf("wit %u %zu", c.id, path.size());
-        for (size_t i = 0; i < path.size(); ++i) printf(" %zu", path[i]);
-        printf("\n");
-        printf("oracle %u %s\n", c.id, vh::hx(best).c_str());
+        if (emit) {
+            printf("wit %u %zu", c.id, path.size());
+            for (size_t i = 0; i < path.size(); ++i) printf(" %zu", path[i]);
+            printf("\n");
+            printf("oracle %u %s\n", c.id, vh::hx(best).c_str());
+        }
+        OracleRes res; res.best = best; res.path = path; res.throughCorner = false;
+        for (size_t i = 1; i + 1 < path.size(); ++i) if (area2L(V[path[i - 1]], V[path[i]], V[path[i + 1]]) == 0) res.throughCorner = true;
+        results.push_back(res);
     }
+    return results;
+}
+
+// own-graph certificates for the connectors whose route is dearer than the oracle optimum (penalty > 0)
+static void emitOwn(const own::Graph &g, const std::vector<std::pair<long, long> > &ends, const std::vector<ConnSpec> &cs,
+                    const std::vector<double> &implCost, const std::vector<OracleRes> &orc, double penalty) {
+    if (penalty <= 0) return;
+    bool any = false;
+    for (size_t i = 0; i < cs.size(); ++i) if (implCost[i] > orc[i].best + 1e-7) any = true;
+    if (!any) return;
+    own::dump(g);
+    for (size_t i = 0; i < cs.size(); ++i) if (implCost[i] > orc[i].best + 1e-7) own::emitCert(g, cs[i].id, ends[i].first, ends[i].second, penalty);
 }
 
 // one case: inputs, libavoid run, oracle certificate
@@ -132,12 +154,17 @@ static void runCase(long k, const std::string &tag, const vs::Scene &s, const st
     std::vector<ConnRef *> crs;
     for (auto &c : cs) crs.push_back(new ConnRef(router, ConnEnd(Point(c.sx, c.sy)), ConnEnd(Point(c.dx, c.dy)), c.id));
     router->processTransaction();
+    std::vector<double> implCost; std::vector<std::pair<long, long> > ends;
     for (size_t i = 0; i < crs.size(); ++i) {
         vs::printPts("route", cs[i].id, crs[i]->route().ps);
         vs::printPts("display", cs[i].id, crs[i]->displayRoute().ps);
+        implCost.push_back(own::routeCost(crs[i]->displayRoute().ps, penalty));
     }
+    own::Graph g;
+    if (penalty > 0) { g = own::read(router); for (size_t i = 0; i < crs.size(); ++i) ends.push_back(std::make_pair(g.idx[crs[i]->src()], g.idx[crs[i]->dst()])); }
     delete router;
-    emitOracle(s.shapes, cs, penalty);
+    std::vector<OracleRes> orc = emitOracle(s.shapes, cs, penalty);
+    emitOwn(g, ends, cs, implCost, orc, penalty);
     vh::endCase();
 }
 
@@ -263,11 +290,16 @@ static void runHistory(vh::Rng &r, const vh::Args &a, long kbase, const std::str
         }
         router->processTransaction();
         if (emit) {
+            std::vector<double> implCost; std::vector<std::pair<long, long> > ends;
             for (size_t i = 0; i < crs.size(); ++i) {
                 vs::printPts("route", cs[i].id, crs[i]->route().ps);
                 vs::printPts("display", cs[i].id, crs[i]->displayRoute().ps);
+                implCost.push_back(own::routeCost(crs[i]->displayRoute().ps, penalty));
             }
-            emitOracle(now, cs, penalty);
+            own::Graph g;
+            if (penalty > 0) { g = own::read(router); for (size_t i = 0; i < crs.size(); ++i) ends.push_back(std::make_pair(g.idx[crs[i]->src()], g.idx[crs[i]->dst()])); }
+            std::vector<OracleRes> orc = emitOracle(now, cs, penalty);
+            emitOwn(g, ends, cs, implCost, orc, penalty);
             vh::endCase();
         }
     }
@@ -542,6 +574,172 @@ int main(int argc, char **argv) {
             else ops.push_back(acrossOp(2, 0, conn, segsel));
         }
         runHistory(r, a, k, "edit-history-add*", s, cs, true, penalty, ignoreRegions, invis, ops);
+    }
+    // ---- corner-through class (penalty > 0, Lee visibility): separated rectangles with all corners and both endpoints on
+    //      a coarse grid, so that exact alignments are frequent; a scene is kept only if the oracle's cheapest penalised
+    //      route passes STRAIGHT THROUGH an obstacle corner (three visibility vertices collinear, no bend charged there).
+    //      In such scenes a search state (vertex, previous vertex) is typically first reached with a bend and later again,
+    //      cheaper, along the collinear leg: the open list has to be re-ordered after an in-place cost decrease.
+    //      Both directions of the connector are routed.
+    long nct = (thorough ? 450 : 130) * a.scale;
+    for (long c = 0; c < nct; ++c, ++k) {
+        if (!a.want(k)) continue;
+        vh::Rng r = vh::caseRng(a.seed, k, 29);
+        vs::Scene s; std::vector<ConnSpec> cs; double penalty = 0; bool through = false;
+        for (int tries = 0; tries < 80 && !through; ++tries) {
+            long G = r.range(8, 14), U = std::vector<long>{1, 2, 4}[r.range(0, 2)];
+            penalty = (double) U * std::vector<double>{0.5, 1, 2, 3, 6}[r.range(0, 4)];
+            int want = (int) r.range(3, 7);
+            s = vs::Scene(); s.W = G * U; s.H = G * U; cs.clear();
+            std::vector<vs::DPoly> infl;
+            for (int t = 0; t < 60 && (int) s.shapes.size() < want; ++t) {
+                long x0 = r.range(1, G - 2), y0 = r.range(1, G - 2), w = r.range(1, 3), h = r.range(1, 3);
+                if (x0 + w > G - 1 || y0 + h > G - 1) continue;
+                vs::DPoly R = rectD((double) (x0 * U), (double) (y0 * U), (double) ((x0 + w) * U), (double) ((y0 + h) * U));
+                vs::DPoly Rg = rectD((double) (x0 * U) - 0.5 * U, (double) (y0 * U) - 0.5 * U, (double) ((x0 + w) * U) + 0.5 * U, (double) ((y0 + h) * U) + 0.5 * U);
+                bool ok = true;
+                for (auto &o : infl) if (!vs::interiorDisjointD(Rg, o)) ok = false;
+                if (!ok) continue;
+                s.shapes.push_back(R); s.isRect.push_back(true); infl.push_back(Rg);
+            }
+            if (s.shapes.size() < 2) continue;
+            ConnSpec cn; cn.id = 101; bool okp = false;
+            for (int t = 0; t < 50 && !okp; ++t) {
+                cn.sx = (double) (r.range(0, G) * U); cn.sy = (double) (r.range(0, G) * U); cn.dx = (double) (r.range(0, G) * U); cn.dy = (double) (r.range(0, G) * U);
+                okp = std::fabs(cn.sx - cn.dx) + std::fabs(cn.sy - cn.dy) >= 4 * U;
+                for (auto &q : s.shapes) if (vs::inClosedD(q, cn.sx, cn.sy, 0.25 * U) || vs::inClosedD(q, cn.dx, cn.dy, 0.25 * U)) okp = false;
+            }
+            if (!okp) continue;
+            ConnSpec c2 = cn; c2.id = 102; std::swap(c2.sx, c2.dx); std::swap(c2.sy, c2.dy);
+            cs.push_back(cn); cs.push_back(c2);
+            std::vector<OracleRes> orc = emitOracle(s.shapes, cs, penalty, false);
+            through = orc[0].throughCorner || orc[1].throughCorner;
+        }
+        if (cs.empty()) { vh::beginCase(k, "empty"); vh::endCase(); continue; }
+        runCase(k, through ? "corner-through-pen" : "corner-grid-pen", s, cs, true, penalty, r.coin(1, 2));
+    }
+    // ---- corner-chain class (penalty > 0, Lee visibility; small scenes, hence small open lists): constructed around an exact
+    //      alignment T - v - p on a grid line of direction (a, b): v is a corner of a rectangle Rv next to the target T, p a
+    //      corner of a rectangle Rp further out, and the line only grazes Rv at v and Rp at p (or runs along their sides).
+    //      libavoid's visibility graph then holds the collinear chain p - v - T (no edge p - T), the leg p -> v -> T costs
+    //      no bend at v, while the other way round Rp (via another corner q of Rp) reaches v earlier but pays a bend at v:
+    //      the state (T, via v) is queued first from (v, via q) and later improved in place from (v, via p).  The source
+    //      lies beyond Rp; 0..3 further random rectangles supply competing routes.  Both directions are routed.
+    long ncc = (thorough ? 600 : 200) * a.scale;
+    for (long c = 0; c < ncc; ++c, ++k) {
+        if (!a.want(k)) continue;
+        vh::Rng r = vh::caseRng(a.seed, k, 31);
+        vs::Scene s; std::vector<ConnSpec> cs; double penalty = 0; bool built = false;
+        for (int tries = 0; tries < 200 && !built; ++tries) {
+            static const long dirs[][2] = {{1, 1}, {1, 1}, {2, 1}, {1, 2}, {3, 1}, {1, 3}, {3, 2}, {2, 3}, {1, 0}, {0, 1}};
+            long di = r.range(0, 9), da = dirs[di][0], db = dirs[di][1];
+            long U = std::vector<long>{1, 2, 4, 10}[r.range(0, 3)];
+            penalty = (double) U * std::vector<double>{0.5, 1, 2, 3, 4, 6, 10}[r.range(0, 6)];
+            long i = r.range(1, 2), j = r.range(1, 5);
+            long vx = i * da, vy = i * db, px = (i + j) * da, py = (i + j) * db;
+            if (px > 14 || py > 14) continue;
+            struct B { long x0, y0, x1, y1; };
+            std::vector<B> bs;
+            // a rectangle with a corner at (cx, cy) that the line through it with direction (da, db) only touches
+            auto cornerBox = [&](long cx, long cy, B &b) {
+                long w = r.range(1, 3), h = r.range(1, 3);
+                int q = (int) r.range(0, 1);
+                if (da > 0 && db > 0) { if (q) b = B{cx, cy - h, cx + w, cy}; else b = B{cx - w, cy, cx, cy + h}; }
+                else if (db == 0) { long x0 = r.coin() ? cx : cx - w; if (q) b = B{x0, cy, x0 + w, cy + h}; else b = B{x0, cy - h, x0 + w, cy}; }
+                else { long y0 = r.coin() ? cy : cy - h; if (q) b = B{cx, y0, cx + w, y0 + h}; else b = B{cx - w, y0, cx, y0 + h}; }
+            };
+            B bv, bp; cornerBox(vx, vy, bv); cornerBox(px, py, bp);
+            bs.push_back(bv); bs.push_back(bp);
+            // target on the line beyond v; source in the shadow that Rp casts as seen from v (so that v is reached round Rp,
+            // via p on the line or via the opposite silhouette corner q), preferably where the way via q is the shorter one
+            // by less than the penalty
+            long tx = 0, ty = 0;
+            if (r.coin(1, 3)) { tx = -da * r.range(0, 1); ty = -db * r.range(0, 1); }
+            std::vector<LPt> rp; rp.push_back(LPt{bp.x1, bp.y0}); rp.push_back(LPt{bp.x1, bp.y1}); rp.push_back(LPt{bp.x0, bp.y1}); rp.push_back(LPt{bp.x0, bp.y0});
+            std::vector<std::pair<long, long> > cand, good;
+            for (long x = bp.x0 - 4; x <= bp.x1 + 6; ++x) for (long y = bp.y0 - 4; y <= bp.y1 + 6; ++y) {
+                if (x >= bp.x0 && x <= bp.x1 && y >= bp.y0 && y <= bp.y1) continue;
+                if (!segHitsInteriorL(rp, LPt{x, y}, LPt{vx, vy})) continue;
+                cand.push_back(std::make_pair(x, y));
+                double dp = std::hypot((double) (x - px), (double) (y - py)) + std::hypot((double) (px - vx), (double) (py - vy));
+                double best = 1e300;
+                for (auto &q : rp) if (!(q.x == px && q.y == py) && !segHitsInteriorL(rp, LPt{x, y}, q) && !segHitsInteriorL(rp, q, LPt{vx, vy}))
+                    best = std::min(best, std::hypot((double) (x - q.x), (double) (y - q.y)) + std::hypot((double) (q.x - vx), (double) (q.y - vy)));
+                if (best < dp && dp < best + penalty / (double) U) good.push_back(std::make_pair(x, y));
+            }
+            if (cand.empty()) continue;
+            std::pair<long, long> sp = (!good.empty() && r.coin(5, 6)) ? r.pick(good) : r.pick(cand);
+            long sx = sp.first, sy = sp.second;
+            // a competing one-bend route s -> u -> T round a further rectangle Ru with a corner at u, its length between that
+            // of the route via p and that of the route via q plus one penalty
+            if (r.coin(4, 5)) {
+                auto boxOf = [](const B &b) { std::vector<LPt> q; q.push_back(LPt{b.x1, b.y0}); q.push_back(LPt{b.x1, b.y1}); q.push_back(LPt{b.x0, b.y1}); q.push_back(LPt{b.x0, b.y0}); return q; };
+                auto H = [](long x0, long y0, long x1, long y1) { return std::hypot((double) (x1 - x0), (double) (y1 - y0)); };
+                double dp = H(sx, sy, px, py) + H(px, py, vx, vy) + H(vx, vy, tx, ty), dq = 1e300;
+                for (auto &q : rp) if (!(q.x == px && q.y == py) && !segHitsInteriorL(rp, LPt{sx, sy}, q) && !segHitsInteriorL(rp, q, LPt{vx, vy}))
+                    dq = std::min(dq, H(sx, sy, q.x, q.y) + H(q.x, q.y, vx, vy) + H(vx, vy, tx, ty));
+                double wlo = std::min(dp, dq), whi = std::max(dp, dq) + penalty / (double) U;
+                std::vector<B> cu;
+                std::vector<LPt> rv = boxOf(bv);
+                for (long x = -6; x <= 18; ++x) for (long y = -6; y <= 18; ++y) {
+                    double l = H(sx, sy, x, y) + H(x, y, tx, ty);
+                    if (!(l > wlo && l < whi)) continue;
+                    if (segHitsInteriorL(rp, LPt{sx, sy}, LPt{x, y}) || segHitsInteriorL(rp, LPt{x, y}, LPt{tx, ty}) ||
+                        segHitsInteriorL(rv, LPt{sx, sy}, LPt{x, y}) || segHitsInteriorL(rv, LPt{x, y}, LPt{tx, ty})) continue;
+                    for (int qd = 0; qd < 4; ++qd) {
+                        long w = r.range(1, 2), h = r.range(1, 2);
+                        B b = (qd == 0) ? B{x, y, x + w, y + h} : (qd == 1) ? B{x - w, y, x, y + h} : (qd == 2) ? B{x - w, y - h, x, y} : B{x, y - h, x + w, y};
+                        std::vector<LPt> ru = boxOf(b);
+                        // the rectangle lies inside the bend: the chord s - T crosses it, the two legs do not
+                        if (!segHitsInteriorL(ru, LPt{sx, sy}, LPt{tx, ty})) continue;
+                        if (segHitsInteriorL(ru, LPt{sx, sy}, LPt{x, y}) || segHitsInteriorL(ru, LPt{x, y}, LPt{tx, ty})) continue;
+                        // it leaves the routes round Rp alone
+                        if (segHitsInteriorL(ru, LPt{sx, sy}, LPt{px, py}) || segHitsInteriorL(ru, LPt{px, py}, LPt{vx, vy}) || segHitsInteriorL(ru, LPt{vx, vy}, LPt{tx, ty})) continue;
+                        cu.push_back(b);
+                    }
+                }
+                int ncomp = (int) r.range(1, 3);
+                for (int e = 0; e < ncomp && !cu.empty(); ++e) {
+                    B b = r.pick(cu);
+                    bool sep = true;
+                    for (auto &o : bs) if (!(b.x1 + 1 <= o.x0 || o.x1 + 1 <= b.x0 || b.y1 + 1 <= o.y0 || o.y1 + 1 <= b.y0)) sep = false;
+                    if (sep) bs.push_back(b);
+                }
+            }
+            int extra = (int) r.range(0, 2);
+            for (int e = 0; e < extra; ++e) {
+                long x0 = r.range(-4, 16), y0 = r.range(-4, 16); B b = B{x0, y0, x0 + r.range(1, 3), y0 + r.range(1, 3)};
+                bool sep = true;
+                for (auto &o : bs) if (!(b.x1 + 1 <= o.x0 || o.x1 + 1 <= b.x0 || b.y1 + 1 <= o.y0 || o.y1 + 1 <= b.y0)) sep = false;
+                if (sep) bs.push_back(b);
+            }
+            bool ok = std::labs(sx - tx) + std::labs(sy - ty) >= 3;
+            for (size_t x = 0; x < bs.size() && ok; ++x) {
+                const B &b = bs[x];
+                if (sx >= b.x0 && sx <= b.x1 && sy >= b.y0 && sy <= b.y1) ok = false;      // endpoints strictly outside the closed boxes
+                if (tx >= b.x0 && tx <= b.x1 && ty >= b.y0 && ty <= b.y1) ok = false;
+                for (size_t y = x + 1; y < bs.size() && ok; ++y) {                           // gap >= 1 between boxes
+                    const B &o = bs[y];
+                    if (!(b.x1 + 1 <= o.x0 || o.x1 + 1 <= b.x0 || b.y1 + 1 <= o.y0 || o.y1 + 1 <= b.y0)) ok = false;
+                }
+            }
+            if (!ok) continue;
+            bool mx = r.coin(), my = r.coin(), tr = r.coin();
+            auto X = [&](long x, long y, double &ox, double &oy) { if (mx) x = -x; if (my) y = -y; if (tr) std::swap(x, y); ox = (double) (x * U); oy = (double) (y * U); };
+            s = vs::Scene(); s.W = 20 * U; s.H = 20 * U; cs.clear();
+            std::vector<size_t> order; for (size_t x = 0; x < bs.size(); ++x) order.push_back(x);
+            r.shuffle(order);
+            for (size_t x : order) {
+                double ax, ay, bx, by; X(bs[x].x0, bs[x].y0, ax, ay); X(bs[x].x1, bs[x].y1, bx, by);
+                s.shapes.push_back(rectD(std::min(ax, bx), std::min(ay, by), std::max(ax, bx), std::max(ay, by))); s.isRect.push_back(true);
+            }
+            ConnSpec cn; cn.id = 101; X(sx, sy, cn.sx, cn.sy); X(tx, ty, cn.dx, cn.dy);
+            ConnSpec c2 = cn; c2.id = 102; std::swap(c2.sx, c2.dx); std::swap(c2.sy, c2.dy);
+            cs.push_back(cn); cs.push_back(c2);
+            built = true;
+        }
+        if (!built) { vh::beginCase(k, "empty"); vh::endCase(); continue; }
+        runCase(k, "corner-chain-pen", s, cs, true, penalty, r.coin(2, 3));
     }
     return 0;
 }
